@@ -654,7 +654,8 @@ class Ctx:
             y = self.new("sqrt")
             res = Val.term(y)
             self.fresh_sqrts.append((a, res))
-            self.axiom(y >= 0, v_eq(res * res, a))
+            self.axiom(y >= 0, (y * y) * a.den_term() == a.num_term())
+            V.SQRT_ATOMS[y.get_id()] = a
             self.defs.append(("sqrt", V.ge(a, 0)))
             self.resolutions.append(("sqrt", "fresh"))
         self.memo[k] = res
@@ -857,8 +858,20 @@ class Ctx:
 # SMT cell domain
 # =============================================================================================
 
+def snap_constant(x: float, max_den=5040):
+    """nearest small-denominator rational if the double is within 2 ulp of it, else the exact double"""
+    fx = Fraction(x)
+    cand = fx.limit_denominator(max_den)
+    if cand == fx:
+        return fx
+    if x != 0 and abs(cand - fx) <= abs(fx) * Fraction(1, 2 ** 51):
+        return cand
+    return fx
+
+
 class ValDomain:
     lazy_ite = True
+    snap = False  # read double constants within 2 ulp of p/q (q <= 5040) as p/q (stated per harness)
 
     def __init__(self, ctx: Ctx, prefix=()):
         self.ctx = ctx
@@ -906,6 +919,8 @@ class ValDomain:
         if x != x or x in (float("inf"), float("-inf")):
             # evaluation is demand-driven: a constant is only read on the selected path
             raise Undefined(f"non-finite constant {x} on the selected path")
+        if self.snap or getattr(self.ctx, "snap_constants", False):
+            return Val(snap_constant(x))
         return Val(Fraction(x))
 
     def truth(self, x: Val):
